@@ -171,8 +171,65 @@ def first_documents_of_the_process(ctx, res):
                 break
 
 
+def managed_parts_case(src, which, res=None):
+    """Deleting a part the library looks after itself - manifest.rdf (re-created or dropped from the manifest when
+    saving), an XML part of an embedded object already parsed through get_part - then saving, reopening and saving
+    again: a refusal (ValueError) is an answer, an inconsistent package is not."""
+    out = []
+    with DL.TmpDir() as tmp:
+        doc = DL.open_source(src)
+        raw = DL.source_bytes(src)
+        baseline = DL.package_rules(DL.Package(raw)) if raw else []
+        baseline = [b for b in baseline if b[0] in ("manifest-lists-absent-path", "file-not-listed-in-manifest", "manifest-lists-path-twice")]
+        parts = list(doc.get_parts())
+        if which == "manifest.rdf":
+            victims = [p for p in parts if p == "manifest.rdf"]
+        else:
+            victims = [p for p in parts if "/" in p and p.rsplit("/", 1)[1] in ("content.xml", "styles.xml", "meta.xml", "settings.xml")][:2]
+        if not victims:
+            return out, "no-such-part"
+        outcome = "deleted"
+        for v in victims:
+            try:
+                if which == "object-part":
+                    part = doc.get_part(v)
+                    if hasattr(part, "root"):
+                        part.root  # parsed: the document now holds the part in memory
+                doc.del_part(v)
+            except ValueError:
+                outcome = "refused"
+            except Exception as e:
+                return [(f"edit-raised:del_part:{type(e).__name__}", {"exc": repr(e), "part": v})], "raised"
+        for cycle in (0, 1):
+            try:
+                artefact, pkg = DL.save_doc(doc, "zip-io", tmp, pretty=False, tag=f"m{cycle}")
+            except Exception as e:
+                return [(f"save-raised:{type(e).__name__}", {"exc": repr(e), "after": f"del_part({victims})", "cycle": cycle})], outcome
+            bad = DL.subtract_baseline(DL.package_rules(pkg, expect_mimetype=doc.mimetype), baseline)
+            if bad:
+                return [(f"package:{m}", dict(d, cycle=cycle, scenario=f"del_part({which})", outcome=outcome)) for m, d in bad], outcome
+            doc = DL.reopen(artefact)
+    return out, outcome
+
+
 def run(ctx, res):
     first_documents_of_the_process(ctx, res)
+    msrc = [{"kind": "template", "name": t} for t in DL.TEMPLATES] + [{"kind": "sample", "name": s} for s in DL.sample_files() if not DL.is_big(s)]
+    for i, src in enumerate(msrc):
+        if not ctx.mine(i):
+            continue
+        for which in ("manifest.rdf", "object-part"):
+            try:
+                v, outcome = managed_parts_case(src, which, res)
+            except Exception as e:
+                import traceback
+
+                v, outcome = [(f"harness-raised:{type(e).__name__}", {"tb": traceback.format_exc()[-800:]})], "harness"
+            if outcome != "no-such-part":
+                res.judge()
+                res.cls(("managed-part", which, src["kind"], outcome), True)
+            for m, d in v[:1]:
+                res.violation(m, d, {"scenario": "managed-part", "source": src, "which": which})
     base = [{"kind": "template", "name": t} for t in DL.TEMPLATES] + [{"kind": "sample", "name": s} for s in DL.sample_files()]
     for i, src in enumerate(base):
         if not ctx.mine(i):
@@ -205,6 +262,9 @@ def replay(case):
         r = Res()
         first_documents_of_the_process(_C, r)
         return r.violations
+    if case.get("scenario") == "managed-part":
+        v, _o = managed_parts_case(case["source"], case["which"])
+        return [{"mechanism": m, "detail": d} for m, d in v]
     v = run_case(case["case"], None)
     return [{"mechanism": m, "detail": d} for m, d in (v or [])]
 
